@@ -204,11 +204,17 @@ def controlled_run(conf, prefix):
 
 def explore_conf(conf, bound, part, stop_after_first=True):
     """Stateless DFS with deviation bounding. Returns identity output."""
+    # "the process it runs in": another configuration with the same file names is built first
+    decoy = dict(conf, psel=['NONE', 'ALL'] if conf['psel'] != ['NONE', 'ALL'] else ['NONE', list(conf['prov'])],
+                 mc=False)
+    run_build(decoy, controlled=False)
     base_files, base_ctl = controlled_run(conf, [])
     part.evaluations += 1
     for name, contents, hsh in base_files:
         if hashlib.md5(contents.encode('utf-8')).hexdigest() != hsh:
-            part.violation(f'hash-not-md5:{name}', f'{hsh}', {'conf': conf, 'prefix': []})
+            part.violation(f'hash-not-md5:{name.split(".")[-1]}', f'{name}: reported {hsh}, md5 of the contents is '
+                           f'{hashlib.md5(contents.encode("utf-8")).hexdigest()} (after an earlier build of another '
+                           f'configuration in the same process) | conf={conf}', {'conf': conf, 'prefix': []})
     frontier = [([], base_ctl)]
     seen_sites = set()
     guilty = set()          # sites whose deviation alone (fewest deviations first) changes the output
@@ -251,6 +257,9 @@ def judge(case):
     conf = case['conf']
     if case.get('child'):
         return judge_child(case)
+    decoy = dict(conf, psel=['NONE', 'ALL'] if conf['psel'] != ['NONE', 'ALL'] else ['NONE', list(conf['prov'])],
+                 mc=False)
+    run_build(decoy, controlled=False)
     base, _ = controlled_run(conf, [])
     a, _ = controlled_run(conf, case['prefix'])
     b, _ = controlled_run(conf, case['prefix'])
@@ -259,7 +268,7 @@ def judge(case):
         raise HarnessError('replay of a choice sequence is not deterministic')
     for name, contents, hsh in base:
         if hashlib.md5(contents.encode('utf-8')).hexdigest() != hsh:
-            out.append((f'hash-not-md5:{name}', hsh))
+            out.append((f'hash-not-md5:{name.split(".")[-1]}', hsh))
     if a != base:
         diff = [x[0] for x, y in zip(base, a) if x != y]
         out.append((case.get('key', 'output-depends-on-set-order'), f'prefix {case["prefix"]} changes {diff}'))
